@@ -132,7 +132,7 @@ func (d *deepView) walk(fr *frame, onStack map[*ssa.Function]bool) {
 		d.nextSeq++
 		// closures created here (typically handed to a library function that calls
 		// them back) are part of the view: their free variables resolve to this frame
-		if mc, isMC := i.(*ssa.MakeClosure); isMC && fr.depth < d.maxDepth+6 {
+		if mc, isMC := i.(*ssa.MakeClosure); isMC && fr.depth < d.maxDepth+6 && !onlyCalledDirectly(mc) {
 			if cf, ok := mc.Fn.(*ssa.Function); ok && !onStack[cf] {
 				child := d.closureFrame(fr, mc, cf)
 				onStack[cf] = true
@@ -165,6 +165,36 @@ func (d *deepView) walk(fr *frame, onStack map[*ssa.Function]bool) {
 		d.walk(child, onStack)
 		delete(onStack, callee)
 	}
+}
+
+// onlyCalledDirectly: every use of the closure value is a direct call of it;
+// its body is then part of the view once per call site, with arguments bound.
+func onlyCalledDirectly(mc *ssa.MakeClosure) bool {
+	if mc.Referrers() == nil {
+		return false
+	}
+	n := 0
+	for _, r := range *mc.Referrers() {
+		switch x := r.(type) {
+		case *ssa.DebugRef:
+		case ssa.CallInstruction:
+			if x.Common().Value != ssa.Value(mc) {
+				return false
+			}
+			for _, a := range x.Common().Args {
+				if a == ssa.Value(mc) {
+					return false
+				}
+			}
+			if _, isCall := x.(*ssa.Call); !isCall {
+				return false
+			}
+			n++
+		default:
+			return false
+		}
+	}
+	return n > 0
 }
 
 // each visits every instruction of the view in depth-first program order.
